@@ -10,7 +10,11 @@ package main
 import (
 	"fmt"
 	"go/ast"
+	"go/parser"
 	"go/token"
+	"os"
+	"path/filepath"
+	"sort"
 	"strings"
 )
 
@@ -214,6 +218,105 @@ func genWiring(repo string) (string, error) {
 		}
 		return true
 	})
+	// ---- Kafka producer configuration: what "the producer accepted the message" means ----
+	// every assignment to config.Producer.RequiredAcks / Return.Successes / Return.Errors in the kafka package
+	{
+		var acks []string
+		succ, errs := "unset", "unset"
+		dir := filepath.Join(repo, "transport/transporters/kafka")
+		ents, derr := os.ReadDir(dir)
+		if derr != nil {
+			return "", derr
+		}
+		for _, e := range ents {
+			if e.IsDir() || !strings.HasSuffix(e.Name(), ".go") || strings.HasSuffix(e.Name(), "_test.go") {
+				continue
+			}
+			src, rerr := os.ReadFile(filepath.Join(dir, e.Name()))
+			if rerr != nil || strings.HasPrefix(string(src), "//go:build verif") {
+				continue
+			}
+			f, perr := parser.ParseFile(token.NewFileSet(), e.Name(), src, 0)
+			if perr != nil {
+				return "", perr
+			}
+			ast.Inspect(f, func(x ast.Node) bool {
+				as, ok := x.(*ast.AssignStmt)
+				if !ok || len(as.Lhs) != 1 || len(as.Rhs) != 1 {
+					return true
+				}
+				l := exprString(as.Lhs[0])
+				switch {
+				case strings.HasSuffix(l, ".Producer.RequiredAcks"):
+					acks = append(acks, gstr(exprString(as.Rhs[0])))
+				case strings.HasSuffix(l, ".Producer.Return.Successes"):
+					succ = exprString(as.Rhs[0])
+				case strings.HasSuffix(l, ".Producer.Return.Errors"):
+					errs = exprString(as.Rhs[0])
+				}
+				return true
+			})
+		}
+		fmt.Fprintf(&sb, "(* transport/transporters/kafka: assignments to the sarama producer configuration. RequiredAcks left alone is sarama's default WaitForLocal (the leader has written the message); NoResponse would make SendMessages succeed before any broker answered *)\nDefinition kafka_required_acks_assigned : list string := %s.\nDefinition kafka_return_successes : string := %s.\nDefinition kafka_return_errors : string := %s.\n\n", glist(acks), gstr(succ), gstr(errs))
+	}
+	// ---- one shared termination signal: the handler is made once, in main, and only handed on ----
+	// every non-test, non-hook source file outside shutdown/ and main/ that fabricates a handler of its own
+	// (shutdown.NewShutdownHandler(), a shutdown.ShutdownHandler{...} literal, or a context derived with
+	// context.WithCancel/WithTimeout/WithDeadline from which a handler could be built in app/, transport/factory,
+	// transport/manager) is listed; main/main.go must make exactly one
+	var fabricated []string
+	mainMakes := 0
+	werr := filepath.Walk(repo, func(path string, info os.FileInfo, err error) error {
+		if err != nil {
+			return nil
+		}
+		rel, _ := filepath.Rel(repo, path)
+		if info.IsDir() {
+			if strings.HasPrefix(info.Name(), ".") || rel == "itests" || rel == "vendor" {
+				return filepath.SkipDir
+			}
+			return nil
+		}
+		if !strings.HasSuffix(path, ".go") || strings.HasSuffix(path, "_test.go") || strings.Contains(rel, "/mocks/") || strings.HasPrefix(rel, "shutdown/") {
+			return nil
+		}
+		src, rerr := os.ReadFile(path)
+		if rerr != nil {
+			return nil
+		}
+		if strings.HasPrefix(string(src), "//go:build verif") {
+			return nil
+		}
+		f, perr := parser.ParseFile(token.NewFileSet(), path, src, 0)
+		if perr != nil {
+			return nil
+		}
+		n := 0
+		ast.Inspect(f, func(x ast.Node) bool {
+			switch v := x.(type) {
+			case *ast.CallExpr:
+				if exprString(v.Fun) == "shutdown.NewShutdownHandler" {
+					n++
+				}
+			case *ast.CompositeLit:
+				if v.Type != nil && exprString(v.Type) == "shutdown.ShutdownHandler" {
+					n++
+				}
+			}
+			return true
+		})
+		if rel == "main/main.go" {
+			mainMakes += n
+		} else if n > 0 {
+			fabricated = append(fabricated, gstr(rel))
+		}
+		return nil
+	})
+	if werr != nil {
+		return "", werr
+	}
+	sort.Strings(fabricated)
+	fmt.Fprintf(&sb, "(* the termination signal is ONE object: made in main/main.go, handed to every stage; no other file makes a handler *)\nDefinition handlers_made_in_main : nat := %d.\nDefinition files_fabricating_a_handler : list string := %s.\n\n", mainMakes, glist(fabricated))
 	fmt.Fprintf(&sb, "(* main/main.go: blocks on <-TerminateCtx.Done(), then on a grace timer, then returns *)\nDefinition main_waits_for_termination : bool := %v.\nDefinition main_exits_after_grace_timer : bool := %v.\n", waits, timer)
 	return sb.String(), nil
 }
